@@ -92,7 +92,7 @@ def check_program(prog, reset=None, max_states=400000, system_cls=CoroSystem):
     if d.findings:
         out["findings"] = [repr(f) for f in d.findings]
     try:
-        system = system_cls(d.sim(), RefMachine(flat), reset)
+        system = system_cls(d.sim(), RefMachine(flat, nopush=bool(reset and reset.get('nopush'))), reset)
         r = bfs(system, max_states=max_states)
     except ZeroTimeLoop:
         return {"status": "zero_time"}
@@ -113,7 +113,7 @@ def replay_program(prog, trace, reset=None, system_cls=CoroSystem):
     if not res.ok:
         return None
     d = compile_design(res.vhdl, poison=True, poison_exclude=("v",))
-    system = system_cls(d.sim(), RefMachine(flat), reset)
+    system = system_cls(d.sim(), RefMachine(flat, nopush=bool(reset and reset.get('nopush'))), reset)
     msg = None
     for ch in trace:
         ch = tuple(ch) if isinstance(ch, list) else ch
